@@ -199,6 +199,7 @@ def canon_union(msg: str) -> str:
 _ITEM = r"(?:[bBrRuU]{0,2}'[^'\n]*'|[bBrRuU]{0,2}\"[^\"\n]*\"|[\w.<>-]+)"
 _RUN_RE = re.compile(rf"{_ITEM}(?:, {_ITEM})+")
 _ADDR_RE = re.compile(r"\b0x[0-9a-fA-F]{6,}\b")
+_NOATTR_RE = re.compile(r"^(\s*.* has no attribute )'[^']+'$")
 _PROTO_RE = re.compile(r" \(Protocol with members [^)]*\)")
 
 
@@ -322,6 +323,17 @@ def _classify_pair(da, db):
         ha, hb = [next((l for l in x.split("\n") if l.strip()), "") for x in (pa, pb)]
         if ha == hb and "(Protocol with members " in ha:
             return "*", "content", "protocol member reported as the failing one", da, db
+    la, lb = ma.split("\n"), mb.split("\n")
+    if len(la) == len(lb):
+        pairs = [(x, y) for x, y in zip(la, lb) if x != y]
+        if pairs and all(_NOATTR_RE.match(x) and _NOATTR_RE.match(y) and _NOATTR_RE.match(x).group(1) == _NOATTR_RE.match(y).group(1)
+                         for x, y in pairs):
+            # the protocol check names the first member (in set order) that the value lacks
+            return "*", "content", "protocol member reported as the failing one", da, db
+    ha, hb = [next((l for l in x.split("\n") if l.strip()), "") for x in (ma, mb)]
+    if ha != hb and canon_union(ha) == canon_union(hb):
+        # the headline shows the same union in another order; the detail then names another member first
+        return "*", "union-member-order", "", da, db
     ma, mb = canon_union(ma), canon_union(mb)
     if ma == mb or sorted(ma.split("\n")) == sorted(mb.split("\n")):
         # (members of a union, or the per-member detail lines of a message about a union)
